@@ -1,6 +1,10 @@
 //! Ciphersuite dispatch and the harness-side algebra (public `Field`/`Group` traits only: shares the
 //! curve arithmetic with the system under test, none of frost-core's protocol logic).
 
+use std::collections::BTreeMap;
+
+use frost_core::keys::dkg;
+use frost_core::keys::repairable::{Delta, Sigma};
 use frost_core::{self as frost, Ciphersuite, Element, Field, Group, Identifier, Scalar};
 use frost_rerandomized::RandomizedCiphersuite;
 
@@ -52,13 +56,102 @@ pub trait Suite: RandomizedCiphersuite {
     fn normalised_pk(pk: frost::keys::PublicKeyPackage<Self>) -> frost::keys::PublicKeyPackage<Self> {
         pk
     }
+
+    // ---- the ciphersuite crate's own entry points (thin wrappers over frost-core): the simulated nodes call THESE, as an
+    // application written against e.g. `frost_ed25519` would; the sweeps call frost-core directly, so both routes are exercised
+    fn w_generate_with_dealer(max: u16, min: u16, ids: frost::keys::IdentifierList<Self>, rng: &mut SimRng) -> Result<(BTreeMap<Identifier<Self>, frost::keys::SecretShare<Self>>, frost::keys::PublicKeyPackage<Self>), frost::Error<Self>>;
+    fn w_split(key: &frost::SigningKey<Self>, max: u16, min: u16, ids: frost::keys::IdentifierList<Self>, rng: &mut SimRng) -> Result<(BTreeMap<Identifier<Self>, frost::keys::SecretShare<Self>>, frost::keys::PublicKeyPackage<Self>), frost::Error<Self>>;
+    fn w_dkg_part1(id: Identifier<Self>, max: u16, min: u16, rng: &mut SimRng) -> Result<(dkg::round1::SecretPackage<Self>, dkg::round1::Package<Self>), frost::Error<Self>>;
+    #[allow(clippy::type_complexity)]
+    fn w_dkg_part2(secret: dkg::round1::SecretPackage<Self>, r1: &BTreeMap<Identifier<Self>, dkg::round1::Package<Self>>) -> Result<(dkg::round2::SecretPackage<Self>, BTreeMap<Identifier<Self>, dkg::round2::Package<Self>>), frost::Error<Self>>;
+    fn w_dkg_part3(s2: &dkg::round2::SecretPackage<Self>, r1: &BTreeMap<Identifier<Self>, dkg::round1::Package<Self>>, r2: &BTreeMap<Identifier<Self>, dkg::round2::Package<Self>>) -> Result<(frost::keys::KeyPackage<Self>, frost::keys::PublicKeyPackage<Self>), frost::Error<Self>>;
+    fn w_compute_refreshing_shares(pk: frost::keys::PublicKeyPackage<Self>, ids: &[Identifier<Self>], rng: &mut SimRng) -> Result<(Vec<frost::keys::SecretShare<Self>>, frost::keys::PublicKeyPackage<Self>), frost::Error<Self>>;
+    fn w_refresh_share(share: frost::keys::SecretShare<Self>, kp: &frost::keys::KeyPackage<Self>) -> Result<frost::keys::KeyPackage<Self>, frost::Error<Self>>;
+    fn w_refresh_dkg_part1(id: Identifier<Self>, max: u16, min: u16, rng: &mut SimRng) -> Result<(dkg::round1::SecretPackage<Self>, dkg::round1::Package<Self>), frost::Error<Self>>;
+    #[allow(clippy::type_complexity)]
+    fn w_refresh_dkg_part2(secret: dkg::round1::SecretPackage<Self>, r1: &BTreeMap<Identifier<Self>, dkg::round1::Package<Self>>) -> Result<(dkg::round2::SecretPackage<Self>, BTreeMap<Identifier<Self>, dkg::round2::Package<Self>>), frost::Error<Self>>;
+    fn w_refresh_dkg_shares(
+        s2: &dkg::round2::SecretPackage<Self>,
+        r1: &BTreeMap<Identifier<Self>, dkg::round1::Package<Self>>,
+        r2: &BTreeMap<Identifier<Self>, dkg::round2::Package<Self>>,
+        old_pk: frost::keys::PublicKeyPackage<Self>,
+        old_kp: frost::keys::KeyPackage<Self>,
+    ) -> Result<(frost::keys::KeyPackage<Self>, frost::keys::PublicKeyPackage<Self>), frost::Error<Self>>;
+    fn w_repair1(helpers: &[Identifier<Self>], kp: &frost::keys::KeyPackage<Self>, rng: &mut SimRng, participant: Identifier<Self>) -> Result<BTreeMap<Identifier<Self>, Delta<Self>>, frost::Error<Self>>;
+    fn w_repair2(deltas: &[Delta<Self>]) -> Sigma<Self>;
+    fn w_repair3(sigmas: &[Sigma<Self>], id: Identifier<Self>, pk: &frost::keys::PublicKeyPackage<Self>) -> Result<frost::keys::KeyPackage<Self>, frost::Error<Self>>;
+    fn w_commit(share: &frost::keys::SigningShare<Self>, rng: &mut SimRng) -> (frost::round1::SigningNonces<Self>, frost::round1::SigningCommitments<Self>);
+    fn w_sign(pkg: &frost::SigningPackage<Self>, nonces: &frost::round1::SigningNonces<Self>, kp: &frost::keys::KeyPackage<Self>) -> Result<frost::round2::SignatureShare<Self>, frost::Error<Self>>;
+    fn w_aggregate(pkg: &frost::SigningPackage<Self>, shares: &BTreeMap<Identifier<Self>, frost::round2::SignatureShare<Self>>, pk: &frost::keys::PublicKeyPackage<Self>) -> Result<frost::Signature<Self>, frost::Error<Self>>;
+}
+
+/// Generates the `w_*` methods by delegating to the ciphersuite crate's wrapper functions.
+macro_rules! suite_wrappers {
+    ($k:ident, $ty:ty) => {
+        fn w_generate_with_dealer(max: u16, min: u16, ids: frost::keys::IdentifierList<Self>, rng: &mut SimRng) -> Result<(BTreeMap<Identifier<Self>, frost::keys::SecretShare<Self>>, frost::keys::PublicKeyPackage<Self>), frost::Error<Self>> {
+            $k::keys::generate_with_dealer(max, min, ids, &mut *rng)
+        }
+        fn w_split(key: &frost::SigningKey<Self>, max: u16, min: u16, ids: frost::keys::IdentifierList<Self>, rng: &mut SimRng) -> Result<(BTreeMap<Identifier<Self>, frost::keys::SecretShare<Self>>, frost::keys::PublicKeyPackage<Self>), frost::Error<Self>> {
+            $k::keys::split(key, max, min, ids, rng)
+        }
+        fn w_dkg_part1(id: Identifier<Self>, max: u16, min: u16, rng: &mut SimRng) -> Result<(dkg::round1::SecretPackage<Self>, dkg::round1::Package<Self>), frost::Error<Self>> {
+            $k::keys::dkg::part1(id, max, min, &mut *rng)
+        }
+        fn w_dkg_part2(secret: dkg::round1::SecretPackage<Self>, r1: &BTreeMap<Identifier<Self>, dkg::round1::Package<Self>>) -> Result<(dkg::round2::SecretPackage<Self>, BTreeMap<Identifier<Self>, dkg::round2::Package<Self>>), frost::Error<Self>> {
+            $k::keys::dkg::part2(secret, r1)
+        }
+        fn w_dkg_part3(s2: &dkg::round2::SecretPackage<Self>, r1: &BTreeMap<Identifier<Self>, dkg::round1::Package<Self>>, r2: &BTreeMap<Identifier<Self>, dkg::round2::Package<Self>>) -> Result<(frost::keys::KeyPackage<Self>, frost::keys::PublicKeyPackage<Self>), frost::Error<Self>> {
+            $k::keys::dkg::part3(s2, r1, r2)
+        }
+        fn w_compute_refreshing_shares(pk: frost::keys::PublicKeyPackage<Self>, ids: &[Identifier<Self>], rng: &mut SimRng) -> Result<(Vec<frost::keys::SecretShare<Self>>, frost::keys::PublicKeyPackage<Self>), frost::Error<Self>> {
+            $k::keys::refresh::compute_refreshing_shares(pk, ids, rng)
+        }
+        fn w_refresh_share(share: frost::keys::SecretShare<Self>, kp: &frost::keys::KeyPackage<Self>) -> Result<frost::keys::KeyPackage<Self>, frost::Error<Self>> {
+            $k::keys::refresh::refresh_share(share, kp)
+        }
+        fn w_refresh_dkg_part1(id: Identifier<Self>, max: u16, min: u16, rng: &mut SimRng) -> Result<(dkg::round1::SecretPackage<Self>, dkg::round1::Package<Self>), frost::Error<Self>> {
+            $k::keys::refresh::refresh_dkg_part1(id, max, min, &mut *rng)
+        }
+        fn w_refresh_dkg_part2(secret: dkg::round1::SecretPackage<Self>, r1: &BTreeMap<Identifier<Self>, dkg::round1::Package<Self>>) -> Result<(dkg::round2::SecretPackage<Self>, BTreeMap<Identifier<Self>, dkg::round2::Package<Self>>), frost::Error<Self>> {
+            $k::keys::refresh::refresh_dkg_part2(secret, r1)
+        }
+        fn w_refresh_dkg_shares(
+            s2: &dkg::round2::SecretPackage<Self>,
+            r1: &BTreeMap<Identifier<Self>, dkg::round1::Package<Self>>,
+            r2: &BTreeMap<Identifier<Self>, dkg::round2::Package<Self>>,
+            old_pk: frost::keys::PublicKeyPackage<Self>,
+            old_kp: frost::keys::KeyPackage<Self>,
+        ) -> Result<(frost::keys::KeyPackage<Self>, frost::keys::PublicKeyPackage<Self>), frost::Error<Self>> {
+            $k::keys::refresh::refresh_dkg_shares(s2, r1, r2, old_pk, old_kp)
+        }
+        fn w_repair1(helpers: &[Identifier<Self>], kp: &frost::keys::KeyPackage<Self>, rng: &mut SimRng, participant: Identifier<Self>) -> Result<BTreeMap<Identifier<Self>, Delta<Self>>, frost::Error<Self>> {
+            $k::keys::repairable::repair_share_part1::<$ty, _>(helpers, kp, rng, participant)
+        }
+        fn w_repair2(deltas: &[Delta<Self>]) -> Sigma<Self> {
+            $k::keys::repairable::repair_share_part2(deltas)
+        }
+        fn w_repair3(sigmas: &[Sigma<Self>], id: Identifier<Self>, pk: &frost::keys::PublicKeyPackage<Self>) -> Result<frost::keys::KeyPackage<Self>, frost::Error<Self>> {
+            $k::keys::repairable::repair_share_part3(sigmas, id, pk)
+        }
+        fn w_commit(share: &frost::keys::SigningShare<Self>, rng: &mut SimRng) -> (frost::round1::SigningNonces<Self>, frost::round1::SigningCommitments<Self>) {
+            $k::round1::commit(share, rng)
+        }
+        fn w_sign(pkg: &frost::SigningPackage<Self>, nonces: &frost::round1::SigningNonces<Self>, kp: &frost::keys::KeyPackage<Self>) -> Result<frost::round2::SignatureShare<Self>, frost::Error<Self>> {
+            $k::round2::sign(pkg, nonces, kp)
+        }
+        fn w_aggregate(pkg: &frost::SigningPackage<Self>, shares: &BTreeMap<Identifier<Self>, frost::round2::SignatureShare<Self>>, pk: &frost::keys::PublicKeyPackage<Self>) -> Result<frost::Signature<Self>, frost::Error<Self>> {
+            $k::aggregate(pkg, shares, pk)
+        }
+    };
 }
 
 impl Suite for frost_ristretto255::Ristretto255Sha512 {
     const NAME: &'static str = "ristretto255";
+    suite_wrappers!(frost_ristretto255, frost_ristretto255::Ristretto255Sha512);
 }
 impl Suite for frost_ed25519::Ed25519Sha512 {
     const NAME: &'static str = "ed25519";
+    suite_wrappers!(frost_ed25519, frost_ed25519::Ed25519Sha512);
     fn third_party_verify(vk: &[u8], msg: &[u8], sig: &[u8]) -> Option<bool> {
         let vk: [u8; 32] = vk.try_into().ok()?;
         let sig: [u8; 64] = sig.try_into().ok()?;
@@ -72,10 +165,12 @@ impl Suite for frost_ed25519::Ed25519Sha512 {
 }
 impl Suite for frost_secp256k1::Secp256K1Sha256 {
     const NAME: &'static str = "secp256k1";
+    suite_wrappers!(frost_secp256k1, frost_secp256k1::Secp256K1Sha256);
     const COST: u32 = 2;
 }
 impl Suite for frost_secp256k1_tr::Secp256K1Sha256TR {
     const NAME: &'static str = "secp256k1-tr";
+    suite_wrappers!(frost_secp256k1_tr, frost_secp256k1_tr::Secp256K1Sha256TR);
     const IS_TR: bool = true;
     const COST: u32 = 2;
     fn third_party_verify(vk: &[u8], msg: &[u8], sig: &[u8]) -> Option<bool> {
@@ -125,10 +220,12 @@ impl Suite for frost_secp256k1_tr::Secp256K1Sha256TR {
 }
 impl Suite for frost_p256::P256Sha256 {
     const NAME: &'static str = "p256";
+    suite_wrappers!(frost_p256, frost_p256::P256Sha256);
     const COST: u32 = 3;
 }
 impl Suite for frost_ed448::Ed448Shake256 {
     const NAME: &'static str = "ed448";
+    suite_wrappers!(frost_ed448, frost_ed448::Ed448Shake256);
     const COST: u32 = 9;
 }
 
